@@ -1,6 +1,6 @@
 (* Extraction of the dsh output-path model.  ExtrOcamlBasic only. *)
 From Coq Require Import ExtrOcamlBasic.
-From PV Require Import Dsh.Output Dsh.Dispatch.
+From PV Require Import Dsh.Output Dsh.Dispatch Dsh.Exit.
 Extraction Language OCaml.
 Set Extraction KeepSingleton.
-Extraction "dsh_model.ml" run_stream extract_rc label Dispatch.step Dispatch.init Dispatch.inflight.
+Extraction "dsh_model.ml" run_stream extract_rc label Dispatch.step Dispatch.init Dispatch.inflight Exit.run_exit.
